@@ -665,4 +665,65 @@ def rule_decided_at_dequeue(ctx: Ctx):
     c03.rule_put(ctx, rule="C01.none")
 
 
-RULES = [rule_loop, rule_none, rule_match, rule_allof, rule_expected, rule_reject, rule_write, rule_copied_guards, rule_decided_at_dequeue]
+def rule_stored_callable(ctx: Ctx, rule: str = "C01.expected"):
+    """What a CallbackWrapper runs is what the builder built for this provider: `CallbacksExecutor.add` stores `builder()`
+    itself, or a wrapper around it that calls it once with the call's own arguments and returns its value.  A memo in
+    between (a guard's answer kept per trigger, per machine ...) makes later candidates / later evaluations reuse an answer
+    computed for other arguments or an earlier state of the world."""
+    from ..wrappers import builder_verdict
+
+    rep = ctx.rep
+    fn = ctx.fn("CallbacksExecutor.add")
+    n = 0
+    seen = set()
+    for p in ctx.paths(fn, inline=None, exc_edges="none"):
+        evs = p.events
+        for e in p.calls():
+            if show(e.term.func) != "CallbackWrapper":
+                continue
+            cb = next((k.value for k in e.term.keywords if k.arg == "callback"), e.term.args[0] if e.term.args else None)
+            if cb is None:
+                continue
+            n += 1
+            txt = xshow(cb, evs)
+            if txt in seen:
+                continue
+            seen.add(txt)
+            v = expand(cb, evs)
+            if isinstance(v, ast.Call) and not v.args and not v.keywords and isinstance(v.func, ast.Name) and v.func.id in fn.params:
+                rep.ok(rule, e.loc(), "the wrapper runs exactly what the builder built", stored=txt)
+                continue
+            if isinstance(cb, ast.Name) and cb.id.startswith("$def:"):
+                q = cb.id[len("$def:"):].split("@")[0]
+                inner = next((f for f in fn.module.all_functions if f.qualname == q), None) or \
+                    next((f for f in ctx.p.all_functions() if f.qualname == q), None)
+                if inner is not None and inner.parent is not None:
+                    enter = next((x for x in evs if x.kind == "enter" and x.x.get("callee") is inner.parent), None)
+                    wrapped = None
+                    if enter is not None:
+                        call = enter.node
+                        for prm, arg in zip(inner.parent.params, getattr(call, "args", [])):
+                            av = expand(arg, evs) if not isinstance(arg, ast.Name) else expand(N_(arg.id, p), evs)
+                            if isinstance(av, ast.Call) and isinstance(av.func, ast.Name) and av.func.id in fn.params:
+                                wrapped = prm
+                    verdict, why = builder_verdict(ctx, inner.parent, wrapped)
+                    if verdict == "memo":
+                        rep.violation(rule, e.loc(), f"the callable stored for a callback is `{q}`, which can answer without calling what the builder "
+                                      f"built: {why}", fn.key, norm_stmt(e.node))
+                        continue
+                    if verdict == "transparent":
+                        rep.ok(rule, e.loc(), "the stored wrapper calls what the builder built once and returns its value", stored=txt)
+                        continue
+            rep.unrecognised(rule, e.loc(), f"CallbackWrapper(callback={txt}): not the builder's product and not a wrapper that could be read")
+    rep.floor(rule, "CallbackWrapper constructions in CallbacksExecutor.add", n, 1)
+
+
+def N_(name, p):
+    """The value a local name holds at the end of the path (last store)."""
+    for e in reversed(p.events):
+        if e.kind == "store" and e.x.get("name") == name:
+            return e.x["value"]
+    return ast.Name(id=name, ctx=ast.Load())
+
+
+RULES = [rule_loop, rule_none, rule_match, rule_allof, rule_expected, rule_reject, rule_write, rule_copied_guards, rule_decided_at_dequeue, rule_stored_callable]
